@@ -17,6 +17,17 @@ def rapid(name, test, quick, thorough, **kw):
     return d
 
 CHECKS = {
+    "C20": {
+        "level": "exploration",
+        "phases": [
+            rapid("hist", "TestProp",
+                  {"checks": 400, "shards": 12, "timeout": 400},
+                  {"checks": 6000, "shards": 16, "timeout": 2400}),
+            rapid("cycle", "TestCycles",
+                  {"checks": 48, "shards": 12, "timeout": 400},
+                  {"checks": 600, "shards": 16, "timeout": 2400}, replay_test="TestReplayCycle", seed_offset=1),
+        ],
+    },
     "C12": {
         "level": "fault_enumeration",
         "exhaustive_phases": ["crash"],
